@@ -54,11 +54,20 @@ PI = z3.Real("M_PI")
 
 
 def cfloat(x):
-    """Exact rational value of the double nearest to x (x: float or literal text)."""
+    """Rational value of a decimal constant (literal text or Python float repr)."""
     from fractions import Fraction
-    fr = Fraction(float(x))
-    return z3.RealVal(fr.numerator) / z3.RealVal(fr.denominator) if fr.denominator != 1 \
-        else z3.RealVal(fr.numerator)
+    if isinstance(x, float):
+        x = repr(x)
+    txt = str(x).strip()
+    if txt.startswith(".") or txt.startswith("-.") or txt.endswith("."):
+        txt = txt.replace("-.", "-0.") if txt.startswith("-.") else txt
+        if txt.startswith("."):
+            txt = "0" + txt
+        if txt.endswith("."):
+            txt = txt + "0"
+    txt = txt.replace(".e", ".0e").replace(".E", ".0E")
+    fr = Fraction(txt)
+    return z3.Q(fr.numerator, fr.denominator) if fr.denominator != 1 else z3.RealVal(fr.numerator)
 
 
 def to_real(e):
@@ -233,6 +242,7 @@ class TU(object):
             elif k == "VarDecl":
                 self.globals[n["name"]] = n
         self.lines = source.splitlines()
+        self.source_bytes = source.encode("utf-8")
 
     def record_fields(self, typename):
         typename = typename.replace("const ", "").replace("struct ", "").replace("union ", "").strip()
@@ -401,15 +411,21 @@ class CExec(object):
                 items = [self.rvalue(x, st) for x in init[0].get("inner", [])]
                 items = [to_int(x) if kind == "int" else to_real(x) for x in items]
 
-                def get(j, items=items, kind=kind):
+                tabf = z3.Function("table!%s" % name, I, I if kind == "int" else R) if len(items) > 16 else None
+
+                def get(j, items=items, kind=kind, tabf=tabf):
                     r = z3.IntVal(0) if kind == "int" else z3.RealVal(0)
                     sj = z3.simplify(j)
                     if z3.is_int_value(sj) and 0 <= sj.as_long() < len(items):
                         return items[sj.as_long()]
+                    if tabf is not None:
+                        # large constant table (quadrature nodes/weights) at a symbolic index
+                        return tabf(j)
                     for k in reversed(range(len(items))):
                         r = z3.If(j == k, items[k], r)
                     return r
                 arr = CArr(get, kind, name, n)
+                arr.table_items = items
             else:
                 f = z3.Function("uninit!%s!%d" % (name, CArr._n[0]), I, I if kind == "int" else R)
                 arr = CArr(lambda j, f=f: f(j), kind, name, n)
@@ -758,8 +774,17 @@ class CExec(object):
         return z3.IntVal(int(e["value"]))
 
     def r_FloatingLiteral(self, e, st):
-        # a C floating literal denotes the nearest double: use its exact rational value
-        return cfloat(e.get("value", "0"))
+        # the literal's decimal text in the source (the intended constant); doubles
+        # are reals, so 1e-2*1e-2 == 1e-4 holds exactly
+        txt = None
+        b = e.get("range", {}).get("begin", {})
+        off, ln = b.get("offset"), b.get("tokLen")
+        if off is not None and ln:
+            txt = self.tu.source_bytes[off:off + ln].decode("ascii", "ignore").rstrip("fFlL")
+        try:
+            return cfloat(txt if txt else e.get("value", "0"))
+        except Exception:
+            return cfloat(e.get("value", "0"))
 
     def r_CharacterLiteral(self, e, st):
         return z3.IntVal(int(e["value"]))
@@ -1423,3 +1448,115 @@ class MapLoop(object):
         havoc_scratch("aftermap")
         var.value = z3.Int("x!after!%d" % _hv[0])
         _hv[0] += 1
+
+
+# --------------------------------------------------------------------------
+# Sigma summaries of reduction loops (quadrature loops of the model functions)
+# --------------------------------------------------------------------------
+
+class SigmaDef(object):
+    def __init__(self, fn, index, bound, summand, params):
+        self.fn, self.index, self.bound, self.summand, self.params = fn, index, bound, summand, params
+
+
+class SigmaLoop(object):
+    """`for (i = lo; i < N; i++) body` where every variable that survives the
+    loop is an accumulator  acc = acc + e(i)  (or acc += ...): the loop is
+    summarised as  acc_after = acc_before + Sigma_id(free symbols), with
+    Sigma_id(...) standing for  sum_{i=lo}^{N-1} e(i).  Variables assigned in
+    the body that are not accumulators are loop-local temporaries (havoced
+    afterwards).  The definitions are kept in ex.sigma_defs so that two
+    Sigma-expressions can be compared by unfolding (sum_lin, sum_ext)."""
+
+    def __call__(self, ex, s, st, key):
+        init, cond, inc, body = s["inner"][0], s["inner"][2], s["inner"][3], s["inner"][4]
+        if init.get("kind") == "DeclStmt":
+            ex.exec_stmt(init, st)
+            var = st.env[init["inner"][0]["id"]]
+        elif init.get("kind"):
+            ex.rvalue(init, st)
+            var = st.env[base_decl(init["inner"][0])]
+        else:
+            raise OutsideSubset("reduction loop without initialiser")
+        lo = z3.simplify(var.value)
+        _hv[0] += 1
+        K = z3.Int("i!sigma!%d" % _hv[0])
+        var.value = K
+        c = z3.simplify(to_bool(ex.rvalue(cond, st)))
+        n = None
+        if z3.is_app(c) and c.decl().kind() == z3.Z3_OP_LT and z3.eq(c.arg(0), K):
+            n = c.arg(1)
+        elif z3.is_not(c) and z3.is_app(c.arg(0)) and c.arg(0).decl().kind() == z3.Z3_OP_LE \
+                and z3.eq(c.arg(0).arg(1), K):
+            n = c.arg(0).arg(0)
+        if n is None:
+            raise OutsideSubset("reduction loop %s: condition is not i < N" % (key,))
+        mods = resolve_mods(st, body)
+        cells = [m for m in mods if isinstance(m, Cell) and m is not var]
+        others = [m for m in mods if not isinstance(m, Cell)]
+        if others:
+            raise OutsideSubset("reduction loop %s writes arrays/structs" % (key,))
+        before = {}
+        for c_ in cells:
+            _hv[0] += 1
+            sym = z3.Real("acc!%s!%d" % (c_.name, _hv[0])) if not is_int_type(c_.ctype or "double") \
+                else z3.Int("acc!%s!%d" % (c_.name, _hv[0]))
+            before[id(c_)] = (c_.value, sym)
+            c_.value = sym
+        g0 = st.guard
+        st.broke.append(z3.BoolVal(False))
+        st.continued.append(z3.BoolVal(False))
+        ex.exec_stmt(body, st)
+        st.continued.pop()
+        broke = st.broke.pop()
+        if not z3.is_false(z3.simplify(broke)):
+            raise OutsideSubset("break inside a reduction loop")
+        defs = ex.__dict__.setdefault("sigma_defs", {})
+        for c_ in cells:
+            old, sym = before[id(c_)]
+            new = c_.value
+            delta = z3.simplify(new - sym)
+            if _mentions(delta, sym):
+                # not an accumulator: a temporary that is recomputed in each iteration
+                if _mentions(z3.simplify(new), sym):
+                    raise OutsideSubset("variable %s is neither accumulator nor temporary in loop %s"
+                                        % (c_.name, key))
+                _hv[0] += 1
+                c_.value = (z3.Real if not is_int_type(c_.ctype or "double") else z3.Int)(
+                    "%s!afterloop!%d" % (c_.name, _hv[0]))
+                continue
+            params = [v for v in _free_consts(delta) if not z3.eq(v, K)]
+            params.sort(key=lambda v: v.decl().name())
+            _hv[0] += 1
+            fname = "Sigma%d" % _hv[0]
+            f = z3.Function(fname, *([p.sort() for p in params] + [R])) if params else None
+            term = f(*params) if params else z3.Real(fname)
+            defs[fname] = SigmaDef(f, K, (lo, n), to_real(delta), params)
+            c_.value = to_real(old) + term
+        var.value = n
+
+
+def _mentions(e, sym):
+    seen, stack = set(), [e]
+    while stack:
+        x = stack.pop()
+        if x.get_id() in seen:
+            continue
+        seen.add(x.get_id())
+        if z3.eq(x, sym):
+            return True
+        stack.extend(x.children())
+    return False
+
+
+def _free_consts(e):
+    seen, out, stack = set(), [], [e]
+    while stack:
+        x = stack.pop()
+        if x.get_id() in seen:
+            continue
+        seen.add(x.get_id())
+        if z3.is_app(x) and x.num_args() == 0 and x.decl().kind() == z3.Z3_OP_UNINTERPRETED:
+            out.append(x)
+        stack.extend(x.children())
+    return out
